@@ -4543,6 +4543,11 @@ func init() {
 	addDecided("C01", " A named binding for a body is made at a scope depth of its own (R-C01-binddepth; D45).")
 }
 
+// bindDepthReviewed: a reuse of the slot that is harmless by the order of stores and reads.
+var bindDepthReviewed = map[string]string{
+	"compiler.compileQueryUpdate": "`l op= r` stores r's value in $%0 immediately before the _modify call that is its only reader; a nested op= inside r has finished reading its own $%0 before the outer store (its _modify is not a generator), and one inside l is compiled in a function scope of its own; `.a += ((.b += (1,2)) | .b)` and five other nestings agree with jq",
+}
+
 func ruleBindDepth(c *Ctx, r *Rep) {
 	info := c.Gojq.TypesInfo
 	n := 0
@@ -4577,7 +4582,28 @@ func ruleBindDepth(c *Ctx, r *Rep) {
 				}
 			}
 			if !after {
-				continue // the binding is made for a caller (compilePattern, initPatternVariables, compileImport): the caller's obligation
+				// the binding stays visible to whatever the caller compiles next at the same depth (a data import: the
+				// definitions and the body that follow it) while what was compiled before it at that depth (an included
+				// module's functions, which may refer to a program variable of the same name) must keep its own slot
+				n++
+				key := fmt.Sprintf("binddepth:%s:%s", declKey(fd), c.Src(p))
+				opened := false
+				for _, o := range opens {
+					if o < p.Pos() {
+						opened = true
+					}
+				}
+				root := fd.Name.Name == "compile" || fd.Name.Name == "Compile"
+				if why, ok := bindDepthReviewed[declKey(fd)]; ok && !opened && !root {
+					r.OK(key, p.Pos(), "enumerated — %s", why)
+					continue
+				}
+				if opened || root {
+					r.OK(key, p.Pos(), "%s binds at a depth of its own (or is the root)", declKey(fd))
+				} else {
+					r.Bad(key, p.Pos(), "%s binds a name with pushVariable for the code that follows it, at the depth of the code that precedes it: pushVariable hands out the slot of a variable of that name already bound at this depth, so functions compiled earlier against that variable read the new binding — `gojq --arg x X 'include \"i\"; import \"d\" as $x; initf'` with i.jq `def initf: $x;` yields the data, jq \"X\" (createVariable gives a slot of its own)", declKey(fd))
+				}
+				continue
 			}
 			n++
 			key := fmt.Sprintf("binddepth:%s:%s", declKey(fd), c.Src(p))
@@ -5624,5 +5650,143 @@ func ruleNullIsValue(c *Ctx, r *Rep) {
 		r.Undecided("nullisvalue:census", token.NoPos, "no input iterator methods found in the command")
 	} else if bad == 0 {
 		r.OK("nullisvalue:none", token.NoPos, "%d methods of input iterators examined: none compares a decoded value with nil", n)
+	}
+}
+
+// ---------------------------------------------------------------------------------------------------------------------
+// R-C17-positionsource: an error position that is printed came from the error.
+
+func init() {
+	reg(&Rule{ID: "R-C17-positionsource", Props: []string{"C17", "C15"}, Floor: 1,
+		Doc: "in the Error method of a parse-error type of the command, a message variable declared without a value has been assigned from the underlying error on every path that reaches the formatting: where it can keep its zero value, an error kind the method does not know (a YAML alias without anchor, a failed tag conversion) is reported with an empty message at a fabricated position (line 1, column 0)",
+		Run: rulePositionSource})
+	addDecided("C17", " A printed position was taken from the error on every path (R-C17-positionsource; D46).")
+}
+
+func rulePositionSource(c *Ctx, r *Rep) {
+	p := c.Cli
+	info := p.TypesInfo
+	n := 0
+	for _, fd := range c.Decls(p) {
+		if fd.Name.Name != "Error" || fd.Recv == nil || !strings.HasSuffix(recvTypeName(fd), "ParseError") {
+			continue
+		}
+		// local variables declared without a value (var index int / var message string)
+		zeroDecl := map[types.Object]bool{}
+		ast.Inspect(fd.Body, func(m ast.Node) bool {
+			if ds, ok := m.(*ast.DeclStmt); ok {
+				if gd, ok := ds.Decl.(*ast.GenDecl); ok {
+					for _, sp := range gd.Specs {
+						if vs, ok := sp.(*ast.ValueSpec); ok && len(vs.Values) == 0 {
+							for _, nm := range vs.Names {
+								if o := info.Defs[nm]; o != nil {
+									// the message (a string); a position that keeps its zero value while the error itself is still
+									// printed (jsonParseError on a read error) fabricates a caret but loses nothing: not this rule's
+									if b, ok := o.Type().Underlying().(*types.Basic); ok && b.Info()&types.IsString != 0 {
+										zeroDecl[o] = true
+									}
+								}
+							}
+						}
+					}
+				}
+			}
+			return true
+		})
+		if len(zeroDecl) == 0 {
+			continue
+		}
+		g := cfg.New(fd.Body, func(*ast.CallExpr) bool { return true })
+		assigns := func(nd ast.Node, obj types.Object) bool {
+			f := false
+			ast.Inspect(nd, func(q ast.Node) bool {
+				if as, ok := q.(*ast.AssignStmt); ok {
+					for _, l := range as.Lhs {
+						if id, ok := l.(*ast.Ident); ok && info.ObjectOf(id) == obj {
+							f = true
+						}
+					}
+				}
+				return true
+			})
+			return f
+		}
+		// uses of such a variable in a call of the package (the line/caret computation, the final formatting)
+		ast.Inspect(fd.Body, func(m ast.Node) bool {
+			call, ok := m.(*ast.CallExpr)
+			if !ok {
+				return true
+			}
+			if f, ok := callee(info, call).(*types.Func); !ok || f.Pkg() == nil || (f.Pkg() != p.Types && f.Pkg().Path() != "fmt") {
+				return true
+			}
+			for obj := range zeroDecl {
+				used := false
+				for _, a := range call.Args {
+					ast.Inspect(a, func(q ast.Node) bool {
+						if _, isCall := q.(*ast.CallExpr); isCall && q != ast.Node(a) {
+							return true
+						}
+						if id, ok := q.(*ast.Ident); ok && info.Uses[id] == obj {
+							used = true
+						}
+						return true
+					})
+				}
+				if !used {
+					continue
+				}
+				// is the call reachable from the entry without passing an assignment of obj?
+				var tb *cfg.Block
+				ti := -1
+				var tl token.Pos = -1
+				for _, b := range g.Blocks {
+					for i, x := range b.Nodes {
+						if x.Pos() <= call.Pos() && call.End() <= x.End() {
+							if l := x.End() - x.Pos(); tl < 0 || l < tl {
+								tb, ti, tl = b, i, l
+							}
+						}
+					}
+				}
+				if tb == nil || len(g.Blocks) == 0 {
+					continue
+				}
+				n++
+				seen := map[int32]bool{}
+				var st []*cfg.Block
+				reach := false
+				st = append(st, g.Blocks[0])
+				for len(st) > 0 && !reach {
+					b := st[len(st)-1]
+					st = st[:len(st)-1]
+					if seen[b.Index] {
+						continue
+					}
+					seen[b.Index] = true
+					blocked := false
+					for i, nd := range b.Nodes {
+						if b == tb && i == ti {
+							reach = true
+							break
+						}
+						if assigns(nd, obj) {
+							blocked = true
+							break
+						}
+					}
+					if reach || blocked {
+						continue
+					}
+					st = append(st, b.Succs...)
+				}
+				key := fmt.Sprintf("positionsource:%s:%s:%s", declKey(fd), obj.Name(), calleeName(info, call))
+				r.Check(!reach, key, call.Pos(), "%s reaches `%s` with %s assigned from the error on every path: %v — on a path where it keeps its zero value an error kind the method does not know (`y: *foo`, `y: !!int abc`) is reported with no message at all, at line 1, column 0", declKey(fd), calleeName(info, call), obj.Name(), !reach)
+			}
+			return true
+		})
+	}
+	if n == 0 {
+		r.Undecided("positionsource:census", token.NoPos, "no Error method of a parse-error type of the command uses a position variable declared without a value")
 	}
 }
